@@ -1,6 +1,7 @@
 """property -> rules table."""
 from .rules import spec as R_spec
 from .rules import c17 as R_c17
+from .rules import c11 as R_c11
 
 Q = ("quick", "thorough")
 T = ("thorough",)
@@ -39,5 +40,22 @@ PROPS = {
         technique="static scope resolution + call-graph reachability + spec/signature cross-check over the AST",
         trusted_base=["vstat.scopes (flow-insensitive LEGB resolver)", "vstat.callgraph (by-name reachability)"],
         assumptions=["star-import closure is computed over amoco modules only; all star-imports in arch/, cas/, system/ target amoco modules"],
+    ),
+    "C11": dict(
+        title="Decoding has no memory of earlier calls",
+        explanation=(
+            "Decides that no state channel exists from one decode call to the next: (R-RESET) typestate analysis on the CFG of "
+            "disassembler.__call__, with exception edges from every call outside a stated no-raise trusted base, shows the "
+            "pending-prefix instruction is None on every exit except the tail call into itself; (R-ROLLBACK) ispec.decode "
+            "restores the pending instruction's bytes and deletes the attributes it set when the hook/precondition rejects; "
+            "(R-GLOBALW) no setup function, helper reachable from one inside amoco/arch, or precondition writes module-level "
+            "state. Does NOT decide value equality with a fresh-process decode."
+        ),
+        rules=[(R_c11.r_reset, Q), (R_c11.r_rollback, Q), (R_c11.r_globalw_decode, Q)],
+        level_text="all paths of disassembler.__call__ (normal and exceptional) are covered by a typestate dataflow over its CFG; all ~1050 decode-time functions are scanned for stores to module-level state; the tests exercise no failing-hook history at all",
+        level_note="Trusted no-raise base inside __call__: crysp Bits(), the endian/iset configuration lambdas, dict.get, codecs.encode, logger; `except Exception` is treated as catch-all (BaseException such as KeyboardInterrupt is outside the fault model); callee resolution is by name.",
+        technique="typestate dataflow on a statement CFG with exception edges + who-may-write effect scan over the call graph",
+        trusted_base=["vstat.cfg (statement CFG with exception edges)", "no-raise table NORAISE_CALLEES in vstat/rules/c11.py"],
+        assumptions=["exceptions considered are subclasses of Exception"],
     ),
 }
